@@ -327,7 +327,10 @@ def date_text_roundtrip(procs=16):
         for text, want in ((str(d), d), (d.isoformat(), d),
                            (str(d.date()), datetime.datetime.combine(d.date(), datetime.time()))):
             n += 1
-            got = get_date(text)
+            try:
+                got = get_date(text)
+            except Exception as e:      # noqa
+                got = 'raised %s: %s' % (type(e).__name__, e)
             if got != want:
                 bad.append({'text': text, 'got': repr(got), 'expected': repr(want)})
     return n, bad
